@@ -13,7 +13,7 @@ import os
 import subprocess
 import sys
 
-from vp import hist, wb, wbgen
+from vp import realbooks, hist, wb, wbgen
 from vp.core import PY, check_env
 
 PROP = 'C03'
@@ -29,7 +29,8 @@ FLOORS = {
     'quick': {'round_trips': 200, 'fmt:yml': 40, 'fmt:json': 40, 'fmt:pkl': 40, 'site:thread': 30,
               'site:process': 8, 'value_compares': 3000, 'history_compares': 1500, 'second_saves': 100,
               'resaves_of_loaded': 100, 'with_extra_data': 40, 'cycles_on': 30, 'hostile_constants': 500,
-              'files_opened_seen': 400, 'workbook_changed_on_disk_after_compile': 30},
+              'files_opened_seen': 400, 'workbook_changed_on_disk_after_compile': 30, 'real_book_cases': 40,
+              'real_value_compares': 3000},
     'thorough': {'round_trips': 5000, 'site:process': 200, 'site:thread': 800, 'cycles_on': 800,
                  'hostile_constants': 12000},
 }
@@ -430,6 +431,8 @@ def run(ctx):
     i = 0
     if ctx.shard == 0:
         directed(ctx)
+    # save / load of the workbooks shipped with the repository
+    realbooks.run_cases(ctx, realbooks.c03_case, realbooks.acyclic_books(), 6 if ctx.quick else 60, fraction=0.25)
     while not ctx.out_of_time():
         i += 1
         cycles = i % 4 == 0
@@ -453,5 +456,8 @@ def run(ctx):
 
 
 def replay(ctx, case):
+    if case.get('kind') == 'real-book':
+        realbooks.c03_case(ctx, case['book'], case['case_seed'])
+        return
     one_round_trip(ctx, case['spec'], case['meta'], case['fmt'], case['site'], case['extra'], case['ops'],
                    case['pre_ops'], 1, replaying=True, source=case.get('source', 'mem'))
